@@ -9,10 +9,12 @@ AST (plain tuples, first item = tag):
    ("and", a, b) ("or", a, b) ("ifexpr", c, t, f|None)
    ("item", e, idx) ("attr", e, name) ("filter", name, e, [args]) ("test", name, e, [args], negated)
    ("call", name, [args], [(kw, e)..])          call of a macro / global function by name
+   ("map", [(key_expr, value_expr)..])          map literal {k: v, ..}
  statements
    ("raw", text) ("emit", e) ("if", [(cond, body)..], else_body|None)
    ("for", target(str | [str,str]), iter, filter|None, body, else_body|None, recursive)
-   ("set", name, e) ("setblock", name, body, filter_name|None) ("with", [(name, e)..], body)
+   ("set", target, e) ("setblock", name, body, filter_name|None) ("with", [(target, e)..], body)
+   target = name (str) | [name, name] (unpacking assignment, as in ("for", ..))
    ("macro", name, [params], [(param, default)..], body) ("callblock", name, [args], body)
    ("filterblock", filter_name, body) ("autoescape", value_expr, body) ("break",) ("continue",)
    ("include", template_name) ("do", call_expr)
@@ -69,7 +71,15 @@ def expr_src(e):
     if t == "call":
         args = [expr_src(a) for a in e[2]] + [k + "=" + expr_src(v) for k, v in e[3]]
         return e[1] + "(" + ", ".join(args) + ")"
+    if t == "map":
+        return "{" + ", ".join(expr_src(k) + ": " + expr_src(v) for k, v in e[1]) + "}"
     raise ValueError(t)
+
+
+def target_src(t, parens=False):
+    if isinstance(t, str):
+        return t
+    return ("(" + ", ".join(t) + ")") if parens else ", ".join(t)
 
 
 def body_src(body):
@@ -101,11 +111,11 @@ def stmt_src(s):
             out += "{% else %}" + body_src(s[5])
         return out + "{% endfor %}"
     if t == "set":
-        return "{% set " + s[1] + " = " + expr_src(s[2]) + " %}"
+        return "{% set " + target_src(s[1]) + " = " + expr_src(s[2]) + " %}"
     if t == "setblock":
         return "{% set " + s[1] + ((" | " + s[3]) if s[3] else "") + " %}" + body_src(s[2]) + "{% endset %}"
     if t == "with":
-        return "{% with " + ", ".join(n + " = " + expr_src(e) for n, e in s[1]) + " %}" + body_src(s[2]) + "{% endwith %}"
+        return "{% with " + ", ".join(target_src(n, True) + " = " + expr_src(e) for n, e in s[1]) + " %}" + body_src(s[2]) + "{% endwith %}"
     if t == "macro":
         dflt = dict(s[3])
         params = [p + ((" = " + expr_src(dflt[p])) if p in dflt else "") for p in s[2]]
@@ -134,7 +144,7 @@ class Gen:
         self.rng = rng
         self.f = {"break": True, "macro": True, "autoescape": False, "include": False, "filters": True,
                   "setblock": True, "callblock": True, "recursive": False, "malformed": 0, "undefined": 0,
-                  "strings_with_meta": False}
+                  "strings_with_meta": False, "maps": True, "unpack": True}
         if features:
             self.f.update(features)
         self.max_depth = max_depth
@@ -149,8 +159,52 @@ class Gen:
     def vars_of(self, env, kind):
         return [n for n, k in env.items() if k == kind]
 
+    # kinds of map variables: "map:<key>=<kind>,.." (the kinds of the values under the string keys)
+    def maps_of(self, env):
+        out = []
+        for n, k in env.items():
+            if isinstance(k, str) and k.startswith("map:"):
+                keys = dict(p.split("=") for p in k[4:].split(",") if p)
+                out.append((n, keys))
+        return out
+
+    def map_lookup(self, env, kind):
+        """m.key / m['key'] of a map variable whose value under that key has the kind, or None"""
+        r = self.rng
+        cands = [(n, key) for n, keys in self.maps_of(env) for key, k in keys.items() if k == kind]
+        if not self.f["maps"] or not cands:
+            return None
+        n, key = r.choice(cands)
+        return ("attr", ("var", n), key) if r.chance(1, 2) else ("item", ("var", n), ("str", key))
+
+    def map_expr(self, env, d):
+        """(expression of kind map, {key: kind} of its string keys)"""
+        r = self.rng
+        ms = self.maps_of(env)
+        if ms and r.chance(1, 2):
+            n, keys = r.choice(ms)
+            return ("var", n), keys
+        pairs, keys = [], {}
+        for _ in range(r.below(4)):
+            key = r.choice(["a", "b", "c", "k", 1, 2])
+            c = r.below(4)
+            if c == 0: v, k = self.int_expr(env, 0), "int"
+            elif c == 1: v, k = self.str_expr(env, 0), "str"
+            elif c == 2: v, k = ("list", [self.int_expr(env, 0) for _ in range(r.below(3))]), "list"
+            else: v, k = self.int_expr(env, min(d, 1)), "int"
+            pairs.append((("str", key) if isinstance(key, str) else ("int", key), v))
+            if isinstance(key, str):
+                keys[key] = k                     # duplicate keys: the last value wins
+        return ("map", pairs), keys
+
     def int_expr(self, env, d, in_loop=False):
         r = self.rng
+        if self.f["maps"] and r.chance(1, 10):
+            e = self.map_lookup(env, "int")
+            if e is not None:
+                return e
+            if d > 0 and r.chance(1, 2):
+                return ("filter", "length", self.map_expr(env, d - 1)[0], [])
         if d <= 0 or r.chance(1, 3):
             vs = self.vars_of(env, "int")
             if vs and r.chance(1, 2):
@@ -181,6 +235,12 @@ class Gen:
 
     def str_expr(self, env, d):
         r = self.rng
+        if self.f["maps"] and r.chance(1, 10):
+            e = self.map_lookup(env, "str")
+            if e is not None:
+                return e
+            if d > 0 and r.chance(1, 2):       # the printed form of a map / of a list
+                return ("filter", "string", self.map_expr(env, d - 1)[0] if r.chance(2, 3) else self.list_expr(env, d - 1), [])
         if d <= 0 or r.chance(1, 3):
             vs = self.vars_of(env, "str")
             if vs and r.chance(1, 2):
@@ -202,6 +262,21 @@ class Gen:
 
     def bool_expr(self, env, d, in_loop=False):
         r = self.rng
+        if self.f["maps"] and d > 0 and r.chance(1, 10):
+            me, keys = self.map_expr(env, d - 1)
+            c = r.below(6)
+            key = ("str", r.choice(list(keys) + ["a", "zz"])) if r.chance(3, 4) else ("int", r.choice([1, 2, 3]))
+            if c == 0:
+                return ("cmp", key, [(r.choice(["in", "notin"]), me)])
+            if c == 1:
+                return ("test", "mapping", r.choice([me, self.list_expr(env, 0), self.int_expr(env, 0)]), [], r.chance(1, 4))
+            if c == 2:
+                return ("cmp", me, [(r.choice(["==", "!="]), self.map_expr(env, d - 1)[0])])
+            if c == 3:
+                return ("test", "defined", ("item", me, key) if r.chance(1, 2) or key[0] != "str" else ("attr", me, key[1]), [], r.chance(1, 4))
+            if c == 4:
+                return ("not", me)
+            return ("cmp", ("filter", "length", me, []), [(r.choice(["==", ">", "<"]), ("int", r.below(3)))])
         if d <= 0 or r.chance(1, 4):
             vs = self.vars_of(env, "bool")
             if vs and r.chance(1, 2):
@@ -232,6 +307,10 @@ class Gen:
 
     def list_expr(self, env, d):
         r = self.rng
+        if self.f["maps"] and r.chance(1, 10):
+            e = self.map_lookup(env, "list")
+            if e is not None:
+                return e
         vs = self.vars_of(env, "list")
         c = r.below(4)
         if vs and c == 0:
@@ -241,6 +320,15 @@ class Gen:
         return ("list", [self.int_expr(env, 0) for _ in range(r.below(4))])
 
     def any_scalar(self, env, d, in_loop=False):
+        if self.f["maps"] and self.rng.chance(1, 10):
+            # whole collections are printed too: a map / a list / the keys of a map / a missing key
+            c = self.rng.below(5)
+            me, keys = self.map_expr(env, d)
+            if c == 0: return me
+            if c == 1: return self.list_expr(env, d)
+            if c == 2: return ("filter", "list", me, [])
+            if c == 3: return ("filter", "join", me, [("str", ",")])
+            return ("filter", "default", ("attr", me, self.rng.choice(list(keys) + ["zz"])), [("str", "-")])
         c = self.rng.below(3)
         if c == 0:
             return self.int_expr(env, d, in_loop)
@@ -265,6 +353,43 @@ class Gen:
             if c == 0:
                 return ("raw", r.choice(["t", " ", "ab", "-", ".\n"]))
             return ("emit", self.any_scalar(env, 1, in_loop))
+        if self.f["maps"] and r.chance(1, 12):
+            # a loop over the keys of a map (the item is the key: a string), or over its [key, value] pairs
+            me, keys = self.map_expr(env, 1)
+            k = self.fresh("k")
+            env2 = dict(env)
+            env2[k] = "str"
+            els = self.body(env, d - 1, in_loop) if r.chance(1, 4) else None
+            if self.f["unpack"] and r.chance(1, 2):
+                v = self.fresh("x")
+                env2[v] = "other"
+                body = [("emit", ("var", k)), ("raw", "="), ("emit", ("var", v)), ("raw", ";")] + self.body(env2, d - 1, True, n=1)
+                return ("for", [k, v], ("filter", "items", me, []), None, body, els, False)
+            body = [("emit", ("var", k)), ("raw", ":"), ("emit", ("item", me, ("var", k))), ("raw", ";")] + self.body(env2, d - 1, True, n=1)
+            flt = ("cmp", ("var", k), [("!=", ("str", r.choice(list(keys) + ["a"])))]) if r.chance(1, 4) else None
+            return ("for", k, me, flt, body, els, False)
+        if self.f["unpack"] and r.chance(1, 14):
+            # unpacking assignment: the right-hand side is evaluated completely before the targets are bound
+            ints = self.vars_of(env, "int")
+            c = r.below(9)
+            if c == 0 and len(ints) >= 2:
+                a, b = r.choice(ints), r.choice(ints)
+                rhs = ("list", [("var", b), ("bin", "+", ("var", a), ("var", b))])      # the running pair
+            else:
+                a, b = self.fresh("u"), self.fresh("u")
+                if c == 1 and ints: a = r.choice(ints)
+                n = 2 if not self.f["malformed"] and r.chance(9, 10) else r.choice([1, 2, 2, 3])
+                rhs = ("list", [self.int_expr(env, 1, in_loop) for _ in range(n)])
+                if c == 2: rhs = ("map", [(("str", "p"), ("int", 1)), (("str", "q"), ("int", 2))])     # unpacks into the keys
+                if c == 3: rhs = r.choice([("int", 5), ("str", "xy"), ("var", "undef0"), ("none",)])    # not unpackable
+            if a == b:
+                b = self.fresh("u")
+            if r.chance(1, 2):
+                env2 = dict(env)
+                env2[a] = env2[b] = "other" if c in (2, 3) else "int"
+                return ("with", [([a, b], rhs)] + ([(self.fresh("w"), ("var", a))] if r.chance(1, 3) else []), self.body(env2, d - 1, in_loop))
+            env[a] = env[b] = "other" if c in (2, 3) else "int"
+            return ("set", [a, b], rhs)
         c = r.below(16)
         if c == 0:
             return ("raw", r.choice(["t", " ", "ab", "-", ".\n"]))
@@ -345,11 +470,23 @@ class Gen:
 
 
 def default_context(rng):
-    """A context of ints, strings, bools and lists, plus its kinds."""
+    """A context of ints, strings, bools, lists and maps (string keys -> ints / strings / lists / one nested
+    map), plus its kinds.  The kind of a map is "map:<key>=<kind of the value>,.."."""
     ctx = {"n": rng.choice([0, 1, 3, 7]), "m": rng.choice([-2, 2, 10]), "s": rng.choice(["", "ab", "Q"]),
            "t": rng.choice([True, False]), "l": [rng.below(5) for _ in range(rng.below(4))],
            "k": [1, 2, 3][: rng.below(4)]}
     kinds = {"n": "int", "m": "int", "s": "str", "t": "bool", "l": "list", "k": "list"}
+    d, dk = {}, []
+    for key, kind, val in (("b", "str", rng.choice(["x", "it's", "<i>", "a\"b", ""])), ("a", "int", rng.choice([0, 4, -7])),
+                           ("l", "list", [rng.below(3) for _ in range(rng.below(3))]), ("c", "int", rng.below(100))):
+        if rng.chance(3, 4):
+            d[key] = val
+            dk.append(key + "=" + kind)
+    ctx["d"] = d
+    kinds["d"] = "map:" + ",".join(dk)
+    e = rng.choice([{}, {"x": 1, "y": 2}, {"k": {"a": 1, "z": "w"}, "j": 5}, {"y": "n", "x": [1, "s"]}])
+    ctx["e"] = e
+    kinds["e"] = "map:" + ",".join(k + "=" + ("int" if isinstance(v, int) else "str" if isinstance(v, str) else "other") for k, v in e.items())
     return ctx, kinds
 
 
